@@ -114,7 +114,22 @@ def run(res, tier, seed, broken_model):
         fam.append(("multi", (("tup", (I_, x)), ("tup", (I_, y)), ("tup", (I_, z)))))
         fam.append(("multi", (("fn", (), ("tup", (("bool",), x))), ("fn", (), ("tup", (("bool",), y))), ("fn", (), ("tup", (("bool",), z))))))
         fam.append(("multi", (("struct", (("a", x), ("b", I_))), ("struct", (("a", y), ("b", I_))), ("struct", (("a", z), ("b", I_))))))
-    types = structs + fam + list(T.HAND) + [g.gen() for _ in range(300 if tier == "quick" else 8000)]
+    # unions in which one member makes a query answer "nothing" (a non-iterator among iterators, a non-tuple among tuples,
+    # a non-function among functions, a non-cell among cells ..) next to members whose answers absorb everything (`any`):
+    # a fold that stops early, or skips members once the accumulator is `any`, answers differently per visiting order
+    ANY_ = ("any",)
+    B_ = ("bool",)
+    it = lambda e: ("fn", (), ("tup", (B_, e)))
+    mixed = [
+        ("multi", (it(ANY_), I_)), ("multi", (it(ANY_), ("fn", (), I_))), ("multi", (it(ANY_), ("fn", (I_,), ("tup", (B_, I_))))),
+        ("multi", (it(ANY_), it(I_), S_)), ("multi", (it(I_), it(ANY_), it(S_), F_)),
+        ("multi", (("arr", ANY_), I_)), ("multi", (("arr", ANY_), ("arr", I_), ("tup", (I_, I_)))),
+        ("multi", (("fn", (I_,), ANY_), S_)), ("multi", (("fn", (I_,), ANY_), ("fn", (I_,), I_), ("arr", I_))),
+        ("multi", (("cell", ANY_), I_)), ("multi", (("cell", ANY_), ("cell", I_), S_)),
+        ("multi", (("tup", (ANY_, I_)), I_)), ("multi", (("tup", (ANY_, I_)), ("tup", (I_, I_)), ("tup", (I_, I_, I_)))),
+        ("multi", (("struct", (("a", ANY_),)), I_)), ("multi", (("struct", (("a", ANY_),)), ("struct", (("a", I_),)), ("struct", (("b", I_),)))),
+    ]
+    types = structs + fam + mixed + list(T.HAND) + [g.gen() for _ in range(300 if tier == "quick" else 8000)]
     out = harness_run(["type\tdet\t%s\t%d" % (esc_field(T.src(t)), K + 1) for t in types])
     for t, o in zip(types, out):
         res.evaluations += 1
